@@ -22,14 +22,14 @@ func init() {
 			"concurrent phases run all reporters at once with spinning readers and an Events consumer, then compare at the end. A serial monitor collects every (serial, config pointer) pair seen by any reader, callback, Events or the mon.stored hook: " +
 			"install serials must be contiguous from 1, the pairing injective both ways, every reader and the Events stream non-decreasing. distinct_nontrivial = distinct (nsrc, source-order, outcome) signatures with >=2 sources reporting and >=1 field unset again by a later layer of the same source.",
 		Assumptions: []string{"fresh-stack oracle is dials.Config itself over static sources (real code), cross-checked with the harness reference stack"},
-		MinDistinct: map[string]int{"quick": 150, "thorough": 5000},
+		MinDistinct: map[string]int{"quick": 700, "thorough": 50000},
 		MinCounters: map[string]map[string]int64{
 			"quick":    {"fresh_stack_comparisons": 1500, "installs_observed": 5000, "serial_pairs_checked": 20000},
 			"thorough": {"fresh_stack_comparisons": 80000, "installs_observed": 400000},
 		},
 		Plan: func(tier string) fw.Plan {
 			if tier == "thorough" {
-				return fw.Plan{Shards: 16, CasesPerShard: 1200, TimeoutSec: 3000}
+				return fw.Plan{Shards: 16, CasesPerShard: 5000, TimeoutSec: 3000}
 			}
 			return fw.Plan{Shards: 8, CasesPerShard: 150, TimeoutSec: 900}
 		},
